@@ -657,8 +657,8 @@ pub fn spec() -> PropSpec {
     PropSpec {
         id: "C11",
         families: vec![Family { name: "clean", f: fam_clean, weight: 40 }, Family { name: "lossy", f: fam_lossy, weight: 60 }],
-        quick_worlds: 15_000,
-        thorough_worlds: 500_000,
+        quick_worlds: 300_000,
+        thorough_worlds: 4_500_000,
         panic_is_violation: true,
         rule: "each world = 20-140 drawn stream operations (open, write, finish, reset, stop, read with drawn maximum chunk length, accept, stopped, received_reset, set_priority) by both applications on known and unknown stream ids of both directions and both initiators, at drawn instants, while the network delays, loses and reorders packets (no duplication), under drawn stream / connection windows and stream limits; every result is compared with a reference model fed by the operations issued and the frames each connection has accepted; non-trivial = a fault fired or an operation had a prediction; distinct = distinct abstract-event signature",
         assumptions: vec![
